@@ -553,6 +553,10 @@ def run(ck, F):
                      f'{c_["id"]} leaves {leaves[:4]} of the {contracts.short(name_)} it constructs indeterminate (no initialiser in the constructor, no default '
                      'member initialiser, and default-initialisation of that member does nothing)', loc=c_['loc'], fn=c_['id'])
 
+    # reads of the first unit of a word that no emptiness test dominates
+    import firstunit as _firstunit
+    _firstunit.rule(ck, F, 'C19')
+
     # the pool chain after an allocation: nothing that was reachable is lost, everything new is reachable
     R7 = ck.rule('C19.chain-preserved', 'on every path of arena::allocate (and of the constructor) the chain mem -> previous -> ... '
                  'reaches every block just obtained from operator new, still reaches the old head, and ends in the old tail: '
